@@ -157,7 +157,13 @@ def c07(run):
                      inputs_fn=nulrich, bufsizes=(0, 0, 4), full_cover=40 if q else 200)
     # many more small rule sets, tables only: the order of the accepting lists (yy_acclist) against the ordered
     # accepting sets of the specification, in every product state
-    more = [x for x in rulesets.random_family(run.seed + 7919, 240 if q else 1500) if x["profile"] in ("lit", "ops", "ccl", "rep", "grp", "dot", "ref", "posix", "mix", "trail")]
+    # (a seeded change that leaves some accepting lists unsorted - after a hash collision in the subset construction -
+    # showed in about 0.75% of such rule sets: hence their number)
+    more = []
+    k = 0
+    while len(more) < (420 if q else 3000):
+        g = rulesets.gen_ruleset(random.Random((run.seed + 1) * 1000003 + k), ("ops", "ref", "trail", "grp", "rep", "ccl")[k % 6], name="rnd-acc-%d" % k); k += 1
+        more.append(g)
     units.product_unit(run, fd, more, [{"tbl": "", "reject": True}], tag="acclists")
     # REJECT together with -Cf/-CF must be refused
     units.product_unit(run, fd, srcs[:6], tbl_cfgs(["-Cf", "-CF", "-Cfe"], reject=(True,)), tag="refusal")
@@ -280,7 +286,7 @@ def c08(run):
     run.probe("array-yyless-after-yymore", arrayless_probe)
     units.trace_unit(run, [c for c in cases if c.status == "ok"], rng, per_case=16 if q else 60, tag="edits",
                      bufsizes=(0, 0, 1, 2, 3, 8, 16), scheds=[[1], [2, 1], [], [5]],
-                     script_modes=("random",), maxops=40)
+                     script_modes=("random", "random", "moreless"), maxops=40)
     mc.result()
 
 
